@@ -66,6 +66,12 @@ def tbin_encode_reply(method, value, seqid=0):
           b'\x0b' + struct.pack('!h', 0) + struct.pack('!i', len(v)) + v + b'\x00')
 
 
+def tbin_encode_void_reply(method, seqid=0):
+  """Reply of a two-way void method: a result struct with no field set."""
+  m = method.encode('utf8')
+  return struct.pack('!I', VERSION_1 | T_REPLY) + struct.pack('!i', len(m)) + m + struct.pack('!i', seqid) + b'\x00'
+
+
 def tbin_encode_appexc(method, text, seqid=0, etype=6):
   m = method.encode('utf8')
   t = text.encode('utf8')
@@ -98,8 +104,13 @@ class _ServerBase(Peer):
     self.auto_delay = auto_delay     # None = manual release
     self.requests = []               # Pending, in arrival order
     self.reachable = True
+    self.void_methods = ()           # two-way void methods without arguments: answered at once, not tracked as requests
 
   def _record(self, conn, tag, call):
+    if call.get('ok') and call.get('arg') is None and call.get('method') in self.void_methods and call.get('mtype') == T_CALL:
+      self.net._log('srv_void', conn, tag=tag, method=call.get('method'))
+      self._answer_void(conn, tag, tbin_encode_void_reply(call['method'], call.get('seqid', 0)))
+      return None
     reply = None
     if call.get('ok') and call.get('arg') is not None:
       reply = tbin_encode_reply(call['method'], echo(call['arg']), call.get('seqid', 0))
@@ -120,6 +131,9 @@ class ThriftPeer(_ServerBase):
 
   def on_frame(self, conn, frame):
     self._record(conn, None, tbin_decode_call(frame))
+
+  def _answer_void(self, conn, tag, body):
+    conn.feed(struct.pack('!i', len(body)) + body)
 
   def release(self, p, payload=None):
     if p.answered or p.conn.closed:
@@ -229,6 +243,9 @@ class MuxPeer(_ServerBase):
     p.conn.feed(mux_frame(RDISPATCH, p.tag, body), mark={'mtype': RDISPATCH, 'tag': p.tag})
     self.net._log('srv_reply', p.conn, req=p.n, tag=p.tag)
     return True
+
+  def _answer_void(self, conn, tag, body):
+    conn.feed(mux_frame(RDISPATCH, tag, struct.pack('!bh', 0, 0) + body), mark={'mtype': RDISPATCH, 'tag': tag})
 
   def send_frame(self, conn, mtype, tag, body=b''):
     """Adversarial / arbitrary frame from the peer."""
